@@ -43,6 +43,7 @@ def cases(draw, tier, force_alias=False):
         case['p3'] = arith.operand_picks(draw, 16, allow_repeat=True)
         # sometimes the first operand list IS the circuit's own live inputs / outputs list (callers write
         # add_x(c, c.outputs, ...)), which the gadget may be growing or reordering while it reads it
+        case['hand'] = draw(st.sampled_from(arith.HAND_STYLES))
         case['alias'] = draw(st.sampled_from([None, None, None, 'outputs', 'outputs', 'inputs'] if not force_alias
                                              else ['outputs', 'outputs', 'inputs']))
     return case
@@ -152,19 +153,22 @@ def check_arith(case):
             n = len(a)
 
             def arg_a():
-                return live if live is not None else list(a)
+                if live is not None:
+                    return live
+                # the arithmetics/* functions declare tp.Iterable operands, the gadgets of generation.py declare lists
+                return arith.hand(a, case.get('hand', 'list')) if kind in ('sub', 'sub_cmp', 'div_mod', 'sqrt', 'equal') else list(a)
 
             kw_out = {}
             if kind in ('plus_one', 'ite', 'pairwise_xor', 'pairwise_ite'):
                 kw_out['add_outputs'] = add_outputs
             if kind == 'sub':
-                ret = ar.add_sub_two_numbers(c, arg_a(), list(b), big_endian=be)
+                ret = ar.add_sub_two_numbers(c, arg_a(), arith.hand(b, case.get('hand', 'list')), big_endian=be)
             elif kind == 'sub_cmp':
-                ret = ar.add_subtract_with_compare(c, arg_a(), list(b), big_endian=be)
+                ret = ar.add_subtract_with_compare(c, arg_a(), arith.hand(b, case.get('hand', 'list')), big_endian=be)
             elif kind == 'div_mod':
                 b = p2[:n] if not case.get('mismatch') else p2[:n + 1]
                 try:
-                    ret = ar.add_div_mod(c, arg_a(), list(b), big_endian=be)
+                    ret = ar.add_div_mod(c, arg_a(), arith.hand(b, case.get('hand', 'list')), big_endian=be)
                 except BadShapesError:
                     if len(b) != len(a):
                         return {'nt': False, 'cls': cls | {'shape_mismatch_rejected'}}
